@@ -10,13 +10,22 @@ from ..common import Scratch, Timer, tier, seed, use_repo, vlog
 from ..report import Report
 from .c01 import NONE, _TO, _alarm, judge
 
-PROGS = list(range(1, 11))
+PROGS = list(range(1, 13))
 
 
 def pyconst(node):
     if node["T"] == "Constant":
         return node["value"]["v"]
     return [pyconst(e) for e in node["elts"]]
+
+
+def _edit_in_place(obj, new):
+    """make the list object `obj` equal to `new` without replacing it (inner lists are edited in place too)"""
+    for k, v in enumerate(new):
+        if isinstance(v, list) and isinstance(obj[k], list) and len(obj[k]) == len(v):
+            _edit_in_place(obj[k], v)
+        else:
+            obj[k] = v
 
 
 def job(j):
@@ -26,7 +35,7 @@ def job(j):
     h = j["hist"]
     out = {"src": "", "origin": f"ParamGen-{j['prog']}", "cases": [], "status": "ok"}
     src = render.source(h["def"])
-    out["src"] = src + "\n# history=" + json.dumps([[[k, pyconst(v)] for k, v in val] for val in h["hist"]])
+    out["src"] = src + "\n# history=" + json.dumps([[[k, pyconst(v)] for k, v in val] for val in h["hist"]]) + " mode=" + str(h.get("mode"))
     d = pyast.program(src)
     signal.signal(signal.SIGALRM, _alarm)
     signal.alarm(60)
@@ -36,14 +45,23 @@ def job(j):
             dump0 = ast.dump(u.fun_ast)
             params0 = sorted(u.parameters.keys())
             first = {}
+            held = {}   # mode "inplace": the one value object per parameter that every bind of the history receives
             for step, val in enumerate(h["hist"]):
                 kv = {k: pyconst(v) for k, v in val}
+                if h.get("mode") == "inplace":
+                    for k, w in list(kv.items()):
+                        if isinstance(w, list):
+                            if k in held and len(held[k]) == len(w):
+                                _edit_in_place(held[k], w)
+                            else:
+                                held[k] = w
+                            kv[k] = held[k]
                 qf = u.bind(**kv)
                 key = json.dumps(list(kv.items()), default=str)  # same values in the same keyword order
                 c = {"def": d, "fns": NONE, "params": {k: v for k, v in val},
                      "inputs": [b for a in qf.args for b in a.bitvec],
                      "rets": [s.name for s, _ in qf.expressions[-qf.output_size:]],
-                     "exprs": ser.ser_exprs(qf.expressions), "opt": opt, "note": f"step={step} bind={kv}",
+                     "exprs": ser.ser_exprs(qf.expressions), "opt": opt, "note": f"step={step} mode={h.get('mode')} bind={kv}",
                      "fpb": {"dump": dump0, "params": params0},
                      "fpa": {"dump": ast.dump(u.fun_ast), "params": sorted(u.parameters.keys())}}
                 if key in first:
@@ -81,7 +99,7 @@ def run(pid):
                 one = [h for h in hs if len(h["hist"]) == 1]
                 more = [h for h in hs if len(h["hist"]) > 1]
                 rng.shuffle(more)
-                hs = one + more[:40]
+                hs = one + [h for h in more if h.get("mode") != "inplace"][:30] + [h for h in more if h.get("mode") == "inplace"][:20]
             hists += [(pr, h) for h in hs]
         vlog("histories", len(hists))
         results = run_jobs(job, [{"prog": pr, "hist": h} for pr, h in hists])
